@@ -11,7 +11,12 @@ def main():
         import uuid
         import random
         rnd = random.Random(job['patch_uuid'])
-        uuid.uuid4 = lambda: uuid.UUID(int=rnd.getrandbits(128), version=4)
+        if job.get('uuid_same_prefix'):
+            # all identifiers distinct but with the same leading 32 bits (time_low): behaviour may depend on identity,
+            # never on how much of an identifier is looked at
+            uuid.uuid4 = lambda: uuid.UUID(int=(0xABCDEF01 << 96) | rnd.getrandbits(96), version=4)
+        else:
+            uuid.uuid4 = lambda: uuid.UUID(int=rnd.getrandbits(128), version=4)
     from harness import simdrv as S
     import random as _r
     if job.get('callable_laws'):
